@@ -99,6 +99,73 @@ func runHuge[E comparable](c UCase) pbt.Outcome {
 			return bad("MapErr(z, failing at once)", fmt.Sprintf("%d results, error %v, %d calls", len(got), err, calls), "no result, the error, 1 call")
 		}
 	}
+	// many elements: the helpers that call a callback per element are aborted by a sentinel panic of the callback's 300th invocation
+	// (so the call costs nothing); what comes out must be that panic - not, say, an index-out-of-range panic of a position computed
+	// in 32 bits - and MapErr failing at its 300th call returns that error
+	if n > 1000 {
+		abort := func(op string, call func(tick func())) string {
+			calls := 0
+			var rec any
+			returned := false
+			func() {
+				defer func() { rec = recover() }()
+				call(func() {
+					calls++
+					if calls == 300 {
+						panic(abortSentinel{})
+					}
+				})
+				returned = true
+			}()
+			out.Evals++
+			if _, mine := rec.(abortSentinel); !mine || returned {
+				return fmt.Sprintf("%s with %s and a callback that panics with a sentinel value at its 300th invocation: returned normally: %v, recovered %v after %d invocations of the callback, want the sentinel panic to come out of the call",
+					op, desc, returned, rec, calls)
+			}
+			return ""
+		}
+		for _, a := range []struct {
+			op   string
+			call func(tick func())
+		}{
+			{"Fold(z, 0, st+1)", func(tick func()) { slices.Fold(z, 0, func(st int, _ E) int { tick(); return st + 1 }) }},
+			{"FoldReverse(z, 0, st+1)", func(tick func()) { slices.FoldReverse(z, 0, func(st int, _ E) int { tick(); return st + 1 }) }},
+			{"Map(z, v->v)", func(tick func()) { slices.Map(z, func(v E) E { tick(); return v }) }},
+			{"Map(z, v->struct{}{})", func(tick func()) { slices.Map(z, func(v E) struct{} { tick(); return struct{}{} }) }},
+			{"MapErr(z, v->v)", func(tick func()) { slices.MapErr(z, func(v E) (E, error) { tick(); return v, nil }) }},
+			{"Filter(z, always true)", func(tick func()) { slices.Filter(z, func(E) bool { tick(); return true }) }},
+			{"Filter(z, always false)", func(tick func()) { slices.Filter(z, func(E) bool { tick(); return false }) }},
+			{"Any(z, always false)", func(tick func()) { slices.Any(z, func(E) bool { tick(); return false }) }},
+			{"All(z, always true)", func(tick func()) { slices.All(z, func(E) bool { tick(); return true }) }},
+			{"IndexFunc(z, always false)", func(tick func()) { slices.IndexFunc(z, func(E) bool { tick(); return false }) }},
+			{"ContainsFunc(z, zero value, never equal)", func(tick func()) { slices.ContainsFunc(z, e, func(a, b E) bool { tick(); return false }) }},
+			{"DistinctFunc(z, always equal)", func(tick func()) { slices.DistinctFunc(z, func(a, b E) bool { tick(); return true }) }},
+			{"TrimFunc(z, always true)", func(tick func()) { slices.TrimFunc(z, func(E) bool { tick(); return true }) }},
+			{"TrimLeftFunc(z, always true)", func(tick func()) { slices.TrimLeftFunc(z, func(E) bool { tick(); return true }) }},
+			{"TrimRightFunc(z, always true)", func(tick func()) { slices.TrimRightFunc(z, func(E) bool { tick(); return true }) }},
+			{"GroupBy(z, v->v)", func(tick func()) { slices.GroupBy(z, func(v E) E { tick(); return v }) }},
+			{"GroupBy(z, v->7)", func(tick func()) { slices.GroupBy(z, func(v E) int { tick(); return 7 }) }},
+			{"CountBy(z, v->v)", func(tick func()) { slices.CountBy(z, func(v E) E { tick(); return v }) }},
+		} {
+			if msg := abort(a.op, a.call); msg != "" {
+				return pbt.Fail("%s", msg)
+			}
+		}
+		stop := errors.New("stop at 300")
+		calls := 0
+		got, err := slices.MapErr(z, func(v E) (E, error) {
+			calls++
+			if calls == 300 {
+				return v, stop
+			}
+			return v, nil
+		})
+		out.Evals++
+		if err != stop || len(got) != 0 || calls != 300 {
+			return bad("MapErr(z, failing at its 300th call)", fmt.Sprintf("%d results, error %v, %d calls", len(got), err, calls), "no result, the error, 300 calls")
+		}
+		out.Labels = append(out.Labels, "callback-helpers-aborted-at-call-300")
+	}
 	// few elements (possibly with an astronomic capacity behind them): every helper
 	if n <= 1000 {
 		out.NonTrivial = capacity-c.Len > 1<<31
@@ -184,7 +251,9 @@ var specHuge = pbt.Register(&pbt.Spec[UCase]{
 	Rule: "enumerated: slices of zero-size elements (struct{} and [0]int) of length 0, 1, 5, 1000, 2^16+1, 2^31-1, 2^31, 2^32, 2^32+1, 2^40+1, 2^62 and MaxInt, capacity = length or MaxInt, " +
 		"whole or from index 1, 2^31 or len-3 on. Helpers that need not visit every element are called on all of them: TryGet/SafeGet/SafeGetOr at MinInt, -1, 0, 1, n/2, n-1, n, n+1, MaxInt; Last; " +
 		"Index/Contains of the only value; IndexFunc/Any with an always-true and All with an always-false predicate; ContainsFunc; the Trim family with nothing unwanted (returns all n elements); " +
-		"MapErr failing at its first call. Slices of at most 1000 elements (with up to MaxInt of capacity behind them) go through every helper (lengths of the results, fold counts, one group). " +
+		"MapErr failing at its first call; on more than 1000 elements every helper that takes a callback (Fold, FoldReverse, Map to the element type and to struct{}, MapErr, Filter, Any, All, IndexFunc, ContainsFunc, DistinctFunc, " +
+		"Trim*Func, GroupBy keyed by the element and by a constant, CountBy) is called with a callback that panics with a sentinel at its 300th invocation - exactly that panic must come out (not an index panic of a position computed in 32 bits) - " +
+		"and MapErr failing at its 300th call returns that error and no result. Slices of at most 1000 elements (with up to MaxInt of capacity behind them) go through every helper (lengths of the results, fold counts, one group). " +
 		"Non-trivial = more than 2^31 elements of length or of unused capacity",
 	Enum: func(shard, shards int, tier string, yield func(UCase) bool) {
 		for _, el := range []string{"struct{}", "[0]int"} {
